@@ -116,6 +116,28 @@ def resolve(qual):
         name, _, ordinal = seg.partition('#')
         k = int(ordinal) if ordinal else None
         cands = [d for d in _defs_in(body) if d.name == name]
+        if not cands and isinstance(node, ast.ClassDef):
+            # a method the class inherits: the contract on Class.method is about the function Python would call, which is
+            # the first definition along the base classes (single inheritance chains of /repo classes)
+            seen, todo = set(), [(mod, node)]
+            while todo and not cands:
+                m0, c0 = todo.pop(0)
+                for bq in class_bases(m0, c0):
+                    if not bq or ':' not in bq or bq in seen:
+                        continue
+                    seen.add(bq)
+                    try:
+                        bm, bn, _ = resolve(bq)
+                    except TargetMissing:
+                        continue
+                    if not isinstance(bn, ast.ClassDef):
+                        continue
+                    got = [d for d in _defs_in(bn.body) if d.name == name]
+                    if got:
+                        cands, mod = got, bm
+                        chain[-1] = bn
+                        break
+                    todo.append((bm, bn))
         if not cands:
             raise TargetMissing(f'{qual}: no definition named {name}')
         if k is None:
